@@ -588,3 +588,84 @@ Print Assumptions C04_map_unique.
 Theorem C04_unique_examples : unique_examples.
 Proof. exact unique_examples_hold. Qed.
 Print Assumptions C04_unique_examples.
+
+(* ---------------- the two-column action decoding of a .tinydiff line (TinyLine::action / action_string) ---------------- *)
+From FB Require Import C04.Model3 C04.LineTheory.
+
+(* for EVERY list of cells after the key of a class / field / method / parameter line (valid = the checked
+   constructor of the name type): more than two cells are refused, a non-empty cell the constructor refuses is
+   refused, otherwise the action is from_tuple of the two columns (column = absent when the cell is missing or
+   empty) with Edit(x,x) folded to None *)
+Theorem C04_line_action_spec : forall valid fs,
+  decode_action valid fs =
+  if Nat.ltb 2 (length fs) then Err
+  else if forallb (fun x => is_nil x || valid x) fs
+       then Ok (fold_noop (from_tuple (nonempty (nth 0 fs [])) (nonempty (nth 1 fs []))))
+       else Err.
+Proof. exact decode_action_is_spec. Qed.
+Print Assumptions C04_line_action_spec.
+
+(* exactly when a line is refused: more than two cells, or some non-empty cell is not a valid name *)
+Theorem C04_line_action_err_iff : forall valid fs,
+  decode_action valid fs = Err <->
+  ((2 < length fs)%nat \/ exists x, In x fs /\ x <> [] /\ valid x = false).
+Proof. exact decode_action_err_iff. Qed.
+Print Assumptions C04_line_action_err_iff.
+
+(* what a line that was read means for the value it is applied to (apply_diff_option; names go through
+   Names::change_name, which makes the same comparison - C04_change_name): with equal columns nothing is
+   checked and nothing changes; otherwise the value must be the old column and becomes the new column *)
+Theorem C04_line_action_apply : forall valid fs a,
+  decode_action valid fs = Ok a -> forall t r,
+  apply_option str_eqb a t = Ok r <->
+  ((column fs 0 = column fs 1 /\ r = t) \/
+   (column fs 0 <> column fs 1 /\ t = column fs 0 /\ r = column fs 1)).
+Proof. exact decode_action_apply. Qed.
+Print Assumptions C04_line_action_apply.
+
+(* the image: a decoded action has no empty value, is never Edit(x,x), its values passed the constructor, and
+   the cells our printer writes for it decode to the same action; every such action is the decoding of its cells *)
+Theorem C04_line_action_image : forall valid fs a,
+  decode_action valid fs = Ok a ->
+  line_normal a = true /\ action_all valid a = true /\ decode_action valid (action_cells a) = Ok a.
+Proof. exact decode_action_image. Qed.
+Print Assumptions C04_line_action_image.
+
+Theorem C04_line_action_onto : forall valid a,
+  line_normal a = true -> action_all valid a = true -> decode_action valid (action_cells a) = Ok a.
+Proof. exact decode_action_onto. Qed.
+Print Assumptions C04_line_action_onto.
+
+(* per line kind (0 class, 1 field, 2 method, 3 parameter, otherwise comment: no validity check, the values are
+   unescaped AFTER the comparison of the raw cells) - the function the correspondence stream line-action evaluates *)
+Theorem C04_line_kinds : forall k fs,
+  line_action k fs =
+  if N.ltb k 4 then decode_spec (line_valid k) fs
+  else if Nat.ltb 2 (length fs) then Err
+       else Ok (map_action unescape (fold_noop (from_tuple (column fs 0) (column fs 1)))).
+Proof. exact line_action_is_spec. Qed.
+Print Assumptions C04_line_kinds.
+
+(* non-vacuity: the four outcomes, Edit(x,x) folded, a refusal of each kind, a name valid for classes only, and
+   the quirk of comment lines: two different raw cells that unescape to the same text give Edit(x,x) *)
+Theorem C04_line_examples : line_examples.
+Proof. exact line_examples_hold. Qed.
+Print Assumptions C04_line_examples.
+
+(* ---------------- the image of tiny_v2_diff::read ---------------- *)
+From FB Require Import C04.ReadImage.
+
+(* for EVERY text: a diff that was read has no action on the namespaces and on the comment of the mapping set,
+   valid and pairwise distinct keys in every map (mappings_diff::add_child refuses a second entry), and at class,
+   field, method and parameter level only name actions a line can express - no empty value, never Edit(x,x) -
+   whose values the checked constructors accepted (read_image_b, coq/C04/Model3.v; the correspondence run
+   evaluates the same boolean on every diff read_file returned) *)
+Theorem C04_read_image : forall t d, read t = Ok d -> read_image_b d = true.
+Proof. exact read_image. Qed.
+Print Assumptions C04_read_image.
+
+(* so every diff that comes from a file satisfies the hypothesis on diffs of C04_diff_unique / C04_map_level_spec
+   (pairwise distinct keys) *)
+Theorem C04_read_image_wf : forall t d, read t = Ok d -> wf_diff d = true.
+Proof. intros t d H. exact (read_image_wf d (read_image t d H)). Qed.
+Print Assumptions C04_read_image_wf.
